@@ -48,6 +48,7 @@ pub const OP_HINT: u8 = 4;
 pub const OP_OTHER: u8 = 5;
 pub const OP_CALL_BEGIN: u8 = 6;
 pub const OP_CALL_END: u8 = 7;
+pub const OP_LIB: u8 = 8;
 
 /// Yield density (per run).
 pub const YIELD_NONE: u8 = 0;
@@ -56,6 +57,12 @@ pub const YIELD_ONE_IN_8: u8 = 2;
 pub const YIELD_KEY: u8 = 3;
 
 static YIELD_MODE: AtomicU8 = AtomicU8::new(YIELD_NONE);
+/// Library-side cooperative scheduling points (the `sched_point` hook): which
+/// sites are enabled this run (bit per site) and how often an enabled site yields.
+static LIB_MASK: AtomicU64 = AtomicU64::new(0);
+static LIB_EVERY: AtomicU64 = AtomicU64::new(1);
+static LIB_HITS: AtomicU64 = AtomicU64::new(0);
+static LIB_YIELDS: AtomicU64 = AtomicU64::new(0);
 static IN_WORLD: AtomicU8 = AtomicU8::new(0);
 static STEP: AtomicU64 = AtomicU64::new(0);
 
@@ -150,6 +157,32 @@ pub fn yield_point(kind: u8, pos: u64, key: bool, callno: u64) {
     if do_yield {
         force_yield();
     }
+}
+
+/// Callback installed into the library's `verif::sched_point` hook.
+pub fn lib_hook(site: u32) {
+    if IN_WORLD.load(Ordering::Relaxed) == 0 {
+        return;
+    }
+    if LIB_MASK.load(Ordering::Relaxed) & (1u64 << (site & 63)) == 0 {
+        return;
+    }
+    let n = LIB_HITS.fetch_add(1, Ordering::Relaxed);
+    log_event(OP_LIB, site as u64);
+    if n % LIB_EVERY.load(Ordering::Relaxed).max(1) == 0 {
+        LIB_YIELDS.fetch_add(1, Ordering::Relaxed);
+        force_yield();
+    }
+}
+
+pub fn set_lib_sites(mask: u64, every: u32) {
+    LIB_MASK.store(mask, Ordering::Relaxed);
+    LIB_EVERY.store(every.max(1) as u64, Ordering::Relaxed);
+}
+
+/// (site hits, yields taken at library sites) since the counters were last read.
+pub fn take_lib_counters() -> (u64, u64) {
+    (LIB_HITS.swap(0, Ordering::Relaxed), LIB_YIELDS.swap(0, Ordering::Relaxed))
 }
 
 /// Unconditional switch point (window suspended around it).
